@@ -32,8 +32,9 @@ SameOutcomes ==
           /\ DeclineOut(ls, m, a) = Ind!DeclineOut(ls, m, a)
           /\ ReleaseOut(ls, m, a) = Ind!ReleaseOut(ls, m, a)
           /\ RemoveStaticOut(ls, m, a) = Ind!RemoveStaticOut(ls, m, a)
+          /\ RemoveStatic4Out(ls, m, a) = Ind!RemoveStatic4Out(ls, m, a)
     /\ TickOut(ls) = Ind!TickOut(ls)
-    /\ \A a \in Pool : ExpireOut(ls, a) = Ind!ExpireOut(ls, a)
+    /\ \A a \in Pool : ExpireOut(ls, a) = Ind!ExpireOut(ls, a) /\ BlockEndOut(ls, a) = Ind!BlockEndOut(ls, a)
     /\ \A m \in Macs, a \in StatAddrs, h \in StaticHosts :
           /\ AddStaticOut(ls, m, a, h) = Ind!AddStaticOut(ls, m, a, h)
           /\ UpdateStaticOut(ls, m, a, h) = Ind!UpdateStaticOut(ls, m, a, h)
@@ -50,6 +51,8 @@ SameInvs ==
     /\ ReservedClientGetsReservation = Ind!ReservedClientGetsReservation
     /\ OfferWhenFree = Ind!OfferWhenFree
     /\ DynamicInsidePool = Ind!DynamicInsidePool
+    /\ RemoveKeepsHeldDynamic = Ind!RemoveKeepsHeldDynamic
+    /\ OneLeasePerClient = Ind!OneLeasePerClient
 IndSpec == Ind!Spec
 IndStaticsStable == [][Ind!ProtocolNext => Ind!StaticsStable]_vars
 =============================================================================
